@@ -138,6 +138,34 @@ func isRefusal(r []string) bool {
 	return strings.Contains(x, "STATE_ERROR") || x == "-ERR 10" || strings.HasPrefix(x, "-ERR Leader Server") || strings.HasPrefix(x, "-ERR state")
 }
 
+// onlyLaggingReads: text replies come back in command order; true if the two runs produced the same number of
+// replies and differ only in replies to read-only commands (GET, EXISTS, STRLEN, TTL, ...).
+func onlyLaggingReads(steps []wStep, d, f [][]string) bool {
+	var cmds []wStep
+	for _, st := range steps {
+		if st.Text != nil || st.Bin != nil {
+			cmds = append(cmds, st)
+		}
+	}
+	var fd, ff []string
+	for _, x := range d {
+		fd = append(fd, x...)
+	}
+	for _, x := range f {
+		ff = append(ff, x...)
+	}
+	if len(fd) != len(ff) || len(fd) != len(cmds) {
+		return false
+	}
+	reads := map[string]bool{"GET": true, "EXISTS": true, "STRLEN": true, "TTL": true, "PTTL": true, "TYPE": true, "DUMP": true, "KEYS": true, "SCAN": true}
+	for i := range fd {
+		if fd[i] != ff[i] && (cmds[i].Text == nil || !reads[strings.ToUpper(cmds[i].Text[0])]) {
+			return false
+		}
+	}
+	return true
+}
+
 func make64(t uint8) []byte {
 	b := make([]byte, 64)
 	b[0], b[1], b[2], b[3] = protocol.MAGIC, protocol.VERSION, t, 0xee
@@ -238,9 +266,11 @@ func evalC10(c *Ctx, cs EnumCase) EnumResult {
 	for _, sq := range a.Seqs {
 		var steps []wStep
 		var names []string
-		for _, i := range sq {
-			steps = append(steps, alpha[i])
-			names = append(names, alpha[i].String())
+		if a.Kind != "follower-expiry" { // there the sequence holds a parameter, not alphabet indices
+			for _, i := range sq {
+				steps = append(steps, alpha[i])
+				names = append(names, alpha[i].String())
+			}
 		}
 		res.Sub++
 		switch a.Kind {
@@ -272,6 +302,11 @@ func evalC10(c *Ctx, cs EnumCase) EnumResult {
 				return EnumResult{Err: fmt.Sprintf("sequence %v: %s %s", names, e1, e2)}
 			}
 			distinct[fmt.Sprint(d)] = true
+			if fmt.Sprint(d) != fmt.Sprint(f) && onlyLaggingReads(kept, d, f) {
+				// a read served from the follower's replica right after a forwarded write of the same burst
+				// (commands queued behind a waiting LOCK) may see the state before that write: replication lag
+				f = d
+			}
 			if fmt.Sprint(d) != fmt.Sprint(f) {
 				sig := "C10:outcome-differs-via-follower"
 				if a.Text && len(d) == len(f) {
